@@ -284,6 +284,113 @@ def gen_symbols(rng, cpu, size, targets, spfixed=False, base=0, cover=False):
     return b
 
 
+
+HOSTILE_DEPTHS = [U32, U32, U32 - 1, 1 << 31, (1 << 31) - 1, 65536, 65535, 100000, 1000, 255, 7, 3, 2]
+
+
+def gen_inline_symbols(rng, cpu, size, targets, base):
+    """A symbol file whose FUNCs cover the whole module (every frame in it is really symbolicated) and carry hostile
+    INLINE records: level-0 records covering the instructions, consecutive chains, depth gaps, huge nesting levels
+    (up to 4294967295) that cover or do not cover the instruction, origins / call files with and without their
+    INLINE_ORIGIN / FILE record, several ranges per record, empty and overflowing ranges, many records."""
+    bits = CPUS[cpu][0]
+    w = bits // 8
+    sp, fp, ra = cfi_regs(cpu)
+    lines = ["MODULE %s %s 000000000000000000000000000000000 m" % (rng.choice(["Linux", "windows", "mac"]), cpu)]
+    nfiles = rng.below(3)
+    for i in range(nfiles):
+        lines.append("FILE %d /src/f%d.c" % (i, i))
+    origins = [i for i in range(6) if rng.chance(2, 3)]
+    for i in origins:
+        lines.append("INLINE_ORIGIN %d %s" % (i, "inl%d" % i if rng.chance(3, 4) else gen_name(rng)[:200]))
+    n = rng.choice([1, 1, 2, 4])
+    step = max(1, size // n)
+    for i in range(n):
+        a, s_ = i * step, (step if i < n - 1 else size - i * step)
+        lines.append("FUNC %x %x 0 %s" % (a, s_, "fn%d" % i if rng.chance(2, 3) else gen_name(rng)[:200]))
+        if rng.chance(2, 3):
+            lines.append("%x %x %d %d" % (a, s_, rng.below(1000), rng.below(nfiles + 1)))
+        inside = [t for t in targets if a <= t < a + s_]
+        def rng_pair(cover):
+            if cover == 0:
+                return "%x %x" % (a, s_)
+            if cover == 1 and inside:
+                t = rng.choice(inside)
+                lo = max(a, t - rng.below(16))
+                return "%x %x" % (lo, max(1, t - lo + 1 + rng.below(16)))
+            if cover == 2:
+                return "%x %x" % (a + rng.below(max(1, s_)), rng.choice([0, 1, 4, U32, U64]))
+            return "%x %x" % (rng.choice([a + s_, a + s_ + 16, 0, U64 - 7]), rng.choice([1, 16]))
+        def inline(depth, cover, nr=1):
+            lines.append("INLINE %d %d %d %d %s" % (depth, rng.below(1000), rng.below(nfiles + 1), rng.below(6),
+                                                    " ".join(rng_pair(cover) for _ in range(nr))))
+        shape = rng.below(8)
+        # level 0
+        if shape != 0:
+            inline(0, rng.choice([0, 0, 0, 1]), rng.choice([1, 1, 3]))
+        # consecutive chain
+        k = rng.choice([0, 0, 1, 2, 5, 40]) if shape != 7 else rng.choice([150, 400])
+        for d in range(1, k + 1):
+            inline(d, rng.choice([0, 0, 0, 1]))
+        # hostile extras: gaps and huge levels, covering or not
+        for _ in range(rng.choice([0, 1, 1, 2, 4])):
+            inline(rng.choice(HOSTILE_DEPTHS + [k + 2, k + 3]), rng.choice([0, 0, 1, 2, 3, 3]), rng.choice([1, 1, 2]))
+        if shape == 6:       # many records of one level
+            d = rng.choice([0, 1, U32])
+            for j in range(rng.choice([50, 300])):
+                lines.append("INLINE %d %d 0 %d %x 1" % (d, j, rng.below(6), a + (j * 3) % max(1, s_)))
+    normal = ".cfa: %s %d + .ra: .cfa %d - ^" % (sp, w * rng.choice([1, 2, 4]), w)
+    if rng.chance(3, 4):
+        lines.append("STACK CFI INIT 0 %x %s" % (size, normal))
+    if cpu == "x86" and rng.chance(1, 2):
+        lines.append("STACK WIN 4 0 %x 0 0 0 0 0 0 1 $eip $esp ^ = $esp $esp 4 + =" % size)
+    if rng.chance(1, 6):     # reorder: the parser must cope with INLINE before its FUNC etc.
+        i, j = rng.below(len(lines)), rng.below(len(lines))
+        lines[i], lines[j] = lines[j], lines[i]
+    return ("\n".join(lines) + "\n").encode()
+
+
+# instruction encodings of every length class (1..15 bytes; amd64 and x86 decodings differ, both are bytes to the fetch)
+LEN_INSTRS = ["c3", "50", "cc", "ff30", "6a00", "488b03", "0f0b90", "c20800", "ff7424f8", "488b4308", "e800000000",
+              "488b8300000000"[:12], "488b8300100000", "4c8b04c5f8ffffff", "48c7430800000000", "48a10000000000000080",
+              "48b80000000000000080"[:20], "6648a10000000000000080", "2e6648a10000000000000080", "2e2e6648a10000000000000080",
+              "2e2e2e6648a10000000000000080", "2e2e2e2e6648a10000000000000080", "2e2e2e2e2e2e2e2e2e2e2e2e488b03",
+              "2e2e2e2e2e2e2e2e2e2e2e2e2e488b03", "666666666666662e0f1f840000000000", "f0f0f0f0", "6767676767", "f3", "0f", "48"]
+
+
+def straddle_regions(rng, M):
+    """Memory regions and an instruction pointer for the exception context: the instruction pointer lies in the last
+    1..15 bytes of a region; with / without a region that starts exactly where that region ends (0..20 bytes long),
+    one byte later, or overlapping its tail; the instruction bytes (every length class) start at the instruction
+    pointer and continue into the neighbour when it is there."""
+    rbase = rng.choice([0x400000, 0x400000, 0x7000, 0x10000000, (M - 0xfff) & ~0xf, M - 40])
+    rlen = rng.choice([1, 2, 3, 8, 15, 16, 17, 32, 64, 256])
+    left = min(rlen, rng.range(1, 15))
+    ip = rbase + rlen - left
+    ins = bytes.fromhex(rng.choice(LEN_INSTRS))
+    if rng.chance(1, 6):
+        ins = bytes(rng.below(256) for _ in range(rng.range(1, 15)))
+    stream = ins + bytes([0x90] * 40)
+    first = bytes([0x90] * (rlen - left)) + stream[:left]
+    regs = [(rbase, first)]
+    k = rng.below(8)
+    nb = rbase + rlen
+    nlen = rng.choice([0, 1, 2, 3, 5, 8, 13, 14, 15, 16, 20])
+    if k <= 3:            # directly adjacent
+        regs.append((nb, stream[left:left + nlen]))
+    elif k == 4:          # a gap of one byte
+        regs.append((nb + 1, stream[left + 1:left + 1 + nlen]))
+    elif k == 5:          # overlapping the tail
+        regs.append((nb - 1, stream[left - 1:left - 1 + nlen]))
+    elif k == 6:          # adjacent, and a third one behind it
+        regs.append((nb, stream[left:left + nlen]))
+        regs.append((nb + nlen, stream[left + nlen:left + nlen + rng.below(8)]))
+    regs = [(b, d) for (b, d) in regs if b <= U64]
+    if rng.chance(1, 3):
+        regs.reverse()
+    return ip, regs
+
+
 # ------------------------------------------------------------------ dump pieces
 def gen_stack(rng, cpu, base, size, rets, sp_hint):
     """stack bytes laced with return addresses (absolute) and in-stack frame pointers"""
@@ -372,7 +479,7 @@ class Gen:
         rng = self.rng
         cpu = rng.choice(CPU_WEIGHTED)
         os_ = rng.choice(OSES)
-        theme = theme or rng.choice(["plain", "symbols", "symbols", "symbols", "limits", "guard", "instr", "top", "overlap", "modules", "exc", "deep", "spfixed", "spfixed", "args", "args"])
+        theme = theme or rng.choice(["plain", "symbols", "symbols", "symbols", "limits", "guard", "instr", "top", "overlap", "modules", "exc", "deep", "spfixed", "spfixed", "args", "args", "inline", "inline", "straddle", "straddle"])
         if theme in ("guard", "instr"):
             cpu = "amd64"
             if theme == "guard":
@@ -383,6 +490,11 @@ class Gen:
             cpu = rng.choice(["arm64", "arm64", "arm64old", "arm", "x86", "amd64", "mips", "mips64"])
         if theme == "args":
             cpu = "x86"
+        if theme == "inline":
+            cpu = rng.choice(["x86", "amd64", "amd64", "arm", "arm64", "arm64old", "mips", "mips64"])
+        if theme == "straddle":
+            cpu = rng.choice(["amd64", "amd64", "amd64", "x86", "x86", "arm64", "arm", "mips", "ppc", "sparc", "unknown"])
+            os_ = rng.choice(["linux", "win", "linux", "win", "mac", "android"])
         bits = CPUS[cpu][0]
         w = bits // 8
         M = (1 << bits) - 1
@@ -392,6 +504,9 @@ class Gen:
         if cpu == "x86" and (theme == "args" or rng.chance(1, 2)):
             opt = rng.choice([2, 4, 5])
         toks = ["D", "cpu=" + cpu, "os=" + os_, "opt=%d" % opt]
+        if theme == "straddle" and rng.chance(1, 2) or (theme != "straddle" and rng.chance(1, 12)):
+            toks.append("mem64=1")
+            self.count("mem64")
         if opt >= 4 and rng.chance(1, 2):
             certs = ",".join('\\"%s\\":[\\"mod0.dll\\",\\"%s\\"]' % (rng.choice(["certA", "certB", "c"]) + str(i), rng.choice(["libm0.so", "same.so", "mod1"])) for i in range(rng.range(1, 4)))
             toks.append("evil=" + hx(rng.choice([('{"ModuleSignatureInfo":"{%s}","CPUMicrocodeVersion":"0x1f"}' % certs).encode(), b"{", b"[]", b'{"ModuleSignatureInfo":7}', b'{"ModuleSignatureInfo":{"c":["m"]}}', b"\xff"])))
@@ -400,7 +515,7 @@ class Gen:
         # ---- modules
         mods = []
         nmods = rng.choice([0, 1, 1, 2, 3, 5]) if theme != "modules" else rng.range(2, 8)
-        if theme in ("spfixed", "args"):
+        if theme in ("spfixed", "args", "inline"):
             nmods = rng.choice([1, 1, 2])
         cursor = rng.choice([0x400000, 0x10000000, 0x7000, 0x7f0000000000 & M, M - 0x100000 + 1])
         for i in range(nmods):
@@ -431,11 +546,15 @@ class Gen:
                 rets.append((b + rng.below(s)) & M)
         # ---- symbols
         nsym = 0
-        if theme in ("symbols", "deep", "spfixed", "args") or rng.chance(1, 4):
+        if theme in ("symbols", "deep", "spfixed", "args", "inline") or rng.chance(1, 4):
             for i, (b, s, name) in enumerate(mods):
-                if rng.chance(3, 4) or theme in ("spfixed", "args"):
+                if rng.chance(3, 4) or theme in ("spfixed", "args", "inline"):
                     targets = [r - b for r in rets if b <= r < b + max(s, 1)]
-                    toks.append("S=" + hx(gen_symbols(rng, cpu, max(s, 1), targets, spfixed=(theme == "spfixed"), base=b, cover=(theme == "args"))))
+                    if theme == "inline" or (theme == "symbols" and rng.chance(1, 6)):
+                        toks.append("S=" + hx(gen_inline_symbols(rng, cpu, max(s, 1), targets, b)))
+                        self.count("inline_symbols")
+                    else:
+                        toks.append("S=" + hx(gen_symbols(rng, cpu, max(s, 1), targets, spfixed=(theme == "spfixed"), base=b, cover=(theme == "args"))))
                     mods[i] = (b, s, name, nsym)
                     nsym += 1
             self.count("with_symbols")
@@ -456,7 +575,7 @@ class Gen:
             tid = rng.choice([t + 1, t + 1, 0, 0xffffffff, 7])
             tids.append(tid)
             size = rng.choice([0, 8, 64, 64, 256, 1024, 4096]) if theme != "deep" else rng.choice([4096, 16384, 65536])
-            if theme in ("spfixed", "args"):
+            if theme in ("spfixed", "args", "inline"):
                 size = rng.choice([64, 64, 256, 1024])
             base = sbase0 + t * 0x10000
             if theme == "overlap":
@@ -475,18 +594,19 @@ class Gen:
                 sp = rng.choice(HOSTILE64 + [base - 1, base - w, base + size, base + size - 1, base + size - w])
             if rng.chance(1, 8):
                 fp = rng.choice(HOSTILE64 + [base + size - w, base + size - 2 * w, base - w])
-            if theme in ("spfixed", "args") and rets:
+            if theme in ("spfixed", "args", "inline") and rets:
                 ip = rng.choice(rets)
                 sp = base + w * rng.below(max(1, size // w // 2))
             regs = regs_for(rng, cpu, ip, sp, fp, lr, cs=(rng.choice(rets) if rets else None))
-            if rng.chance(1, 20) and theme not in ("spfixed", "args"):
+            if rng.chance(1, 20) and theme not in ("spfixed", "args", "inline"):
                 regs = "-"
             sspec = hx(stack) if any(stack) else ("z%d" % size if size else "-")
             toks.append("T=%d:%d:%s:%s" % (tid, base & U64, sspec, regs))
             if rng.chance(1, 5):
                 toks.append("N=%d:%s" % (tid, hx(rng.choice(["main", "", "w\u00f6rker", "x" * 300, gen_name(rng, "thread")[:400]]).encode())))
         # ---- exception
-        if theme in ("exc", "guard", "instr") or rng.chance(1, 2):
+        straddle = straddle_regions(rng, M) if theme == "straddle" or rng.chance(1, 10) else None
+        if theme in ("exc", "guard", "instr", "straddle") or rng.chance(1, 2):
             tid = rng.choice(tids) if rng.chance(4, 5) else rng.choice([0x99, 0, 0xffffffff])
             code = rng.choice([0xC0000005, 0xC0000005, 0xC000001D, 0x80000003, 11, 7, 4, 8, 6, 0, 0xffffffff, 1, 0xC0000409, 0xC0000374, 0xdeadbeef])
             addr = rng.choice(rets) if rets and rng.chance(1, 2) else rng.choice(HOSTILE64)
@@ -494,15 +614,21 @@ class Gen:
             i0 = rng.choice([0, 1, 8, 2, U64])
             i1 = rng.choice(HOSTILE64)
             xregs = "-"
-            if rng.chance(3, 4) or theme in ("guard", "instr"):
+            if rng.chance(3, 4) or theme in ("guard", "instr", "straddle"):
                 ip = 0x400000 if theme in ("guard", "instr") else (rng.choice(rets) if rets else 0x400000)
                 sp = rng.choice([sbase0 + 8, sbase0] + HOSTILE64[:6]) if theme == "instr" else sbase0 + w * rng.below(8)
+                if straddle:
+                    ip = straddle[0]
                 xregs = regs_for(rng, cpu, ip, sp, sp + w, 0)
                 if cpu == "amd64":
                     ra = rng.choice(HOSTILE64 + [0x5000, sbase0 + 8])
                     xregs += ",rax=%d,rbx=%d,rcx=%d,rdx=%d,rsi=%d,rdi=%d,r8=%d" % (ra, rng.choice(HOSTILE64), rng.choice(HOSTILE64), 0, 0x5000, U64, ra)
             toks.append("X=%d:%d:%d:%d:%d:%d:%d:%s" % (tid, code, rng.choice([0, 1]), addr & U64, np_, i0, i1, xregs))
-            if theme in ("guard", "instr") or (cpu == "amd64" and rng.chance(1, 3)):
+            if straddle and xregs != "-":
+                for (b, d) in straddle[1]:
+                    toks.append("R=%d:%s" % (b, hx(d)))
+                self.count("straddle_ip")
+            elif theme in ("guard", "instr") or (cpu == "amd64" and rng.chance(1, 3)):
                 ins = rng.choice(INSTRS) if rng.chance(2, 3) else bytes(rng.below(256) for _ in range(rng.range(1, 8))).hex()
                 toks.append("R=%d:%s" % (0x400000, ins))
                 self.count("planted_instr")
@@ -573,7 +699,35 @@ class Gen:
         out = []
         alpha = "abMx  \t019+-ulimted"
         for _ in range(n):
-            k = rng.below(5)
+            k = rng.below(6)
+            if k == 5:
+                # instruction fetch: regions around the instruction pointer, planted instruction of L bytes
+                mem64 = rng.below(2)
+                rb = rng.choice([0x400000, 0x400000, 0x7000, 0x10030, 0x10000, 0xffd0, U64 - 63, U64 - 15, 1 << 32])
+                rl = rng.choice([1, 2, 3, 7, 14, 15, 16, 17, 30, 64])
+                avail = min(rl, rng.range(1, 16))
+                ip = rb + rl - avail
+                if rng.chance(1, 10):
+                    ip = rng.choice([rb + rl, rb - 1 if rb else 0, 0, U64, 0x10000, 0x1003f, 0x10040])
+                L = max(1, min(15, avail + rng.choice([-1, 0, 0, 1, 2, -3])))
+                if rng.chance(1, 8):
+                    L = rng.range(1, 15)
+                regs = [(rb, rl)]
+                nb = rb + rl
+                kk = rng.below(6)
+                nl = rng.choice([0, 1, 2, 5, 14, 15, 20])
+                if kk <= 2 and nb <= U64:
+                    regs.append((nb, nl))
+                elif kk == 3 and nb + 1 <= U64:
+                    regs.append((nb + 1, nl))
+                elif kk == 4:
+                    regs.append((max(0, nb - 2), nl))
+                if rng.chance(1, 4):
+                    regs.insert(rng.below(len(regs) + 1), (rng.choice([rb, rb + 1, max(0, rb - 8), 0x10010]), rng.choice([0, 1, 4, 16, 40])))
+                regs = [(b, min(l, U64 - b + 1) if rng.chance(9, 10) else l) for (b, l) in regs if b <= U64]
+                out.append("I %d %d %d %d %d %d %s" % (mem64, rng.below(2), 0 if rng.chance(4, 5) else 1, ip & U64, L, len(regs),
+                                                       " ".join("%d %d" % x for x in regs)))
+                continue
             if k == 4:
                 name = gen_name(rng)[:3000].lstrip(" \t") or "f(a)"      # the FUNC line parser eats leading blanks
                 out.append("A " + hx(name.encode("utf-8", "replace")))
@@ -612,6 +766,11 @@ class Gen:
                 out.append("J %d %s %d %s" % (len(a), " ".join("%d %d" % x for x in a), len(b), " ".join("%d %d" % x for x in b)))
         self.dist["site_cases"] = n
         return out
+
+
+CPU_BUDGET_BASE_MS = 10000         # the same constants as harness/src/bin/c03.rs
+CPU_BUDGET_BYTES_PER_MS = 2
+SYM_CALLS_PER_FRAME = 200          # measured maximum is far below (scan window 40 words x 2 lookups + CFI + symbolication)
 
 
 def parse_kv(ans):
@@ -712,7 +871,7 @@ class C03(PropBase):
         if ans.startswith("P;;"):
             return "panic while processing or rendering: " + ans[3:240]
         kind = case[0]
-        if kind in "LGSJA":
+        if kind in "LGSJAI":
             if not ans.startswith(kind + " ") and ans != kind:
                 return "unparseable site answer " + ans[:100]
             if kind == "G" and ans == "G -":
@@ -730,10 +889,23 @@ class C03(PropBase):
             return "peak heap %d bytes for %d input bytes exceeds the budget 64 MiB + 20000 x input" % (peak, insz)
         if ms > 60000:
             return "case took %d ms" % ms
+        # time tied to the input size, measured as CPU time of the processing thread (independent of machine load);
+        # the harness's CPU watchdog ends a case that exceeds the same budget while it is still running
+        cpu = int(d.get("cpu", 0))
+        if cpu > CPU_BUDGET_BASE_MS + insz // CPU_BUDGET_BYTES_PER_MS:
+            return "case used %d ms of CPU time for %d input bytes (budget %d ms + 1 ms per %d bytes)" % (cpu, insz, CPU_BUDGET_BASE_MS, CPU_BUDGET_BYTES_PER_MS)
+        # work counted at the symbol-provider interface (hook-free): the unwinder asks the provider a bounded number of
+        # times per produced frame (fill_symbol for the frame, walk_frame for its CFI, fill_symbol per scanned stack word)
+        if "/" in d.get("sym", ""):
+            calls, frames = (int(x) for x in d["sym"].split("/"))
+            nopt = {3: 3, 5: 4}.get(int(dict(t.split("=", 1) for t in case.split()[1:] if "=" in t).get("opt", 0)), 1)
+            thr = int(d.get("thr", 0))
+            if calls > SYM_CALLS_PER_FRAME * (frames + nopt * (thr + 1)):
+                return "%d symbol-provider calls for %d frames of %d threads (bound: %d per frame)" % (calls, frames, thr, SYM_CALLS_PER_FRAME)
         return None
 
     def nontrivial(self, case, ans):
-        if case[0] in "LGSJA":
+        if case[0] in "LGSJAI":
             return not ans.startswith("P;;")
         return " r=ok " in ans and " thr=0 " not in ans
 
